@@ -144,10 +144,16 @@ def f32_from(cv):
     return struct.unpack("<f", bytes.fromhex(cv["f32"]))[0]
 
 
-def to_impl(w, t, cv, node_objects=True):
-    """canonical value -> the Python value a gtirb user would write."""
+def to_impl(w, t, cv, node_objects=True, hashable=False):
+    """canonical value -> the Python value a gtirb user would write. In
+    hashable positions (set elements, mapping keys) sequences are written as
+    tuples and sets as frozensets."""
     g = w.g
     n, subs = t
+    if hashable and n == "sequence":
+        return tuple(to_impl(w, subs[0], x, node_objects, True) for x in cv)
+    if hashable and n == "set":
+        return frozenset(to_impl(w, subs[0], x, node_objects, True) for x in cv["set"])
     if n in R.INTS or n in ("bool", "string"):
         return cv
     if n == "double":
@@ -161,14 +167,14 @@ def to_impl(w, t, cv, node_objects=True):
     if n == "sequence":
         return [to_impl(w, subs[0], x, node_objects) for x in cv]
     if n == "set":
-        return set(to_impl(w, subs[0], x, node_objects) for x in cv["set"])
+        return set(to_impl(w, subs[0], x, node_objects, True) for x in cv["set"])
     if n == "mapping":
-        return dict((to_impl(w, subs[0], k, node_objects), to_impl(w, subs[1], v, node_objects)) for k, v in cv["map"])
+        return dict((to_impl(w, subs[0], k, node_objects, True), to_impl(w, subs[1], v, node_objects, hashable)) for k, v in cv["map"])
     if n == "tuple":
-        return tuple(to_impl(w, st, x, node_objects) for x, st in zip(cv["tuple"], subs))
+        return tuple(to_impl(w, st, x, node_objects, hashable) for x, st in zip(cv["tuple"], subs))
     if n == "variant":
         i, v = cv["variant"]
-        return g.Variant(i, to_impl(w, subs[i], v, node_objects))
+        return g.Variant(i, to_impl(w, subs[i], v, node_objects, hashable))
     raise R.RefError(n)
 
 
